@@ -4,6 +4,7 @@
 cd /verif
 for d in seeded/*/; do
   id=$(basename $d)
+  [ -n "${SWEEP_ONLY:-}" ] && ! echo "$id" | grep -Eq "^(${SWEEP_ONLY})$" && continue
   prop=$(python3 -c "import json;m=json.load(open('$d/meta.json'));print(m.get('check_with') or m['property'])")
   checks=${SWEEP_CHECKS:-$prop}
   wt=/var/tmp/sweep.$$
